@@ -12,10 +12,10 @@ SymXor(acc, m) == (acc \ {m}) \cup ({m} \ acc)
 VARIABLES o, last, n
 vars == <<o, last, n>>
 
-Hop(k, in, e) == [id |-> k, exp |-> e, in |-> in, eg |-> 200 + k, mac |-> k, ai |-> FALSE, ae |-> FALSE]
-Cells == {[inf |-> [id |-> 1, cd |-> cd, ts |-> ts, sid |-> {}], h1 |-> Hop(1, in1, e1), h2 |-> Hop(2, in2, e2)] :
+Hop(k, in, e, fl) == [id |-> k, exp |-> e, in |-> in, eg |-> 200 + k, mac |-> k, ai |-> fl, ae |-> fl]
+Cells == {[inf |-> [id |-> 1, cd |-> cd, ts |-> ts, sid |-> {}], h1 |-> Hop(1, in1, e1, FALSE), h2 |-> Hop(2, in2, e2, fl2)] :
             cd \in BOOLEAN, ts \in {1000, U32CAP - 300, U32CAP - 5000}, in1 \in {0, 101}, in2 \in {0, 102},
-            e1 \in {0, 255}, e2 \in {0, 5}}
+            e1 \in {0, 255}, e2 \in {0, 5}, fl2 \in BOOLEAN}
 
 Init == o \in Cells /\ last = [op |-> "init", ok |-> TRUE, b |-> <<>>] /\ n = 0
 Reverse == /\ n < 2
@@ -39,9 +39,10 @@ ExpiryTotal == OneHopExpiry(o).ok
 SetSecondAgree == \A adv \in BOOLEAN : OneHopSetSecondView(o, 7, "k2", adv) = OneHopSetSecondModel(o, 7, "k2", adv)
 
 Cell(q) == LET v == OneHopReverse(q) IN
-  [cd |-> q.inf.cd, ts |-> q.inf.ts, in1 |-> q.h1.in, in2 |-> q.h2.in, e1 |-> q.h1.exp, e2 |-> q.h2.exp,
+  [cd |-> q.inf.cd, ts |-> q.inf.ts, in1 |-> q.h1.in, in2 |-> q.h2.in, e1 |-> q.h1.exp, e2 |-> q.h2.exp, fl2 |-> q.h2.ai,
    rev |-> [ok |-> v.ok, cd |-> v.o.inf.cd, first |-> v.o.h1.id],
-   ssh |-> [exp |-> OneHopSetSecondView(q, 7, "k2", FALSE).h2.exp, in |-> 7, eg |-> 0],
+   ssh |-> [exp |-> OneHopSetSecondView(q, 7, "k2", FALSE).h2.exp, in |-> 7, eg |-> 0,
+            alerts |-> OneHopSetSecondView(q, 7, "k2", FALSE).h2.ai],
    exp |-> OneHopExpiry(q), fe |-> OneHopFirstEgress(q), li |-> OneHopLastIngress(q)]
 Emit == (GEN /\ n = 0) => PrintT(<<"OHCELL", ToJson(Cell(o))>>)
 =============================================================================
